@@ -105,6 +105,20 @@ Theorem savelog_wellformed : forall pname pid l,
 Proof. exact ProofsTrace.savelog_wellformed_recorded. Qed.
 Print Assumptions savelog_wellformed.
 
+(* OPEN FINDING C20-saveLog-texts-not-escaped: the hypothesis text_ok above cannot be dropped.  saveLog writes thread names, event
+   names, categories and the process name verbatim; with a double quote in any one of them (character codes 97 34 98: a, double quote, b) the output is rejected
+   by the JSON recogniser, while the same log with plain texts is accepted *)
+Theorem savelog_unescaped_text_refuted :
+  let q := [97; 34; 98] in
+  let ev := mkEv KMarker [111; 107] None 0 1000 [] in
+  json_array (saveLog None 1 (threads_of [(q, [ev])])) = false /\
+  json_array (saveLog None 1 (threads_of [([116], [mkEv KMarker q None 0 1000 []])])) = false /\
+  json_array (saveLog (Some q) 1 (threads_of [([116], [ev])])) = false /\
+  json_array (saveLog None 1 (threads_of [([116], [mkEv KMarker [111; 107] (Some q) 0 1000 []])])) = false /\
+  json_array (saveLog None 1 (threads_of [([116], [ev])])) = true.
+Proof. exact ProofsTrace.savelog_unescaped_text_witness. Qed.
+Print Assumptions savelog_unescaped_text_refuted.
+
 (* the same for arbitrary chunk lists (not only those the recorder builds) *)
 Theorem savelog_wellformed_any_chunks : forall pname pid ths,
   (forall p, pname = Some p -> text_ok p) -> Forall thread_ok ths ->
@@ -204,6 +218,13 @@ Theorem savelog_complete_registry : forall pname pid idtext ops k en,
   events_of_tid (N.of_nat k) (log_objs pname pid (reg_threads idtext (reg_run ops))) = recs_of (re_id en) ops.
 Proof. exact ProofsTrace.savelog_complete_registry. Qed.
 Print Assumptions savelog_complete_registry.
+
+(* thread names are attributes of the map's entries, not keys: whatever names the threads give
+   themselves (all the same, some shared, empty) every thread id keeps exactly its own events *)
+Theorem names_never_merge : forall ops names id,
+  reg_evs (reg_run (ops ++ map (fun p => RName (fst p) (snd p)) names)) id = recs_of id ops.
+Proof. exact ProofsTrace.names_never_merge. Qed.
+Print Assumptions names_never_merge.
 
 (* ================================================================== trace: several saveLog calls *)
 
@@ -403,3 +424,12 @@ Example ex_two_saves :
     [([evM "a" 1], []); ([evM "a" 1; evM "b" 2], [evM "x" 3])] /\
   reg_evs (hist_final [] h) 7 = [evM "a" 1; evM "b" 2; evM "c" 4].
 Proof. vm_compute. split; reflexivity. Qed.
+
+(* two threads that both call themselves "worker", and one with an empty name: three lists in the log, each with its own events *)
+Example ex_same_names :
+  let ops := [RName 7 (S_ "worker"); RRec 7 (evM "a" 1); RName 9 (S_ "worker"); RRec 9 (evM "b" 2); RName 5 []; RRec 5 (evM "c" 3)] in
+  let ths := reg_threads (fun _ => S_ "TID") (reg_run ops) in
+  map t_name ths = [S_ "worker"; S_ "worker"; S_ "TID"] /\
+  events_of_tid 0 (log_objs None 1 ths) = [evM "a" 1] /\ events_of_tid 1 (log_objs None 1 ths) = [evM "b" 2] /\
+  events_of_tid 2 (log_objs None 1 ths) = [evM "c" 3].
+Proof. vm_compute. repeat split; reflexivity. Qed.
